@@ -151,10 +151,37 @@ func (m *AuthorizationModelGraph) canApplyRecursiveOptimization(node *authzGraph
 	return recursiveEdge, allEdgesCanApply
 }
 
+// countRecursiveEdges counts the direct and tuple-to-userset edges reachable from node (through operator and
+// logical nodes) that lead back to recursiveRelation.
+func (m *AuthorizationModelGraph) countRecursiveEdges(node *authzGraph.WeightedAuthorizationModelNode, recursiveRelation string) int {
+	edges, ok := m.GetEdgesFromNode(node)
+	if !ok {
+		return 0
+	}
+	n := 0
+	for _, edge := range edges {
+		if edge.GetRecursiveRelation() != recursiveRelation {
+			continue
+		}
+		if edge.GetEdgeType() == authzGraph.DirectEdge || edge.GetEdgeType() == authzGraph.TTUEdge {
+			n++
+		} else {
+			n += m.countRecursiveEdges(edge.GetTo(), recursiveRelation)
+		}
+	}
+	return n
+}
+
 func (m *AuthorizationModelGraph) CanApplyRecursion(node *authzGraph.WeightedAuthorizationModelNode, userType string, newstrategy bool) (*authzGraph.WeightedAuthorizationModelEdge, bool) {
 	userRelation := tuple.GetRelation(userType)
 	// if it is not first time we don't need to resolve any recursive relation because we are already iterating over it
 	if userRelation == "" && node.GetRecursiveRelation() == node.GetUniqueLabel() && !node.IsPartOfTupleCycle() {
+		// The recursive resolution follows exactly one recursive edge and treats every other edge as
+		// non-recursive. A relation that is recursive through more than one edge, e.g.
+		// define viewer: [folder#viewer, user] or viewer from parent, is left to the generic resolution.
+		if m.countRecursiveEdges(node, node.GetRecursiveRelation()) > 1 {
+			return nil, false
+		}
 		edge, ok := m.canApplyRecursiveOptimization(node, node.GetRecursiveRelation(), userType)
 		return edge, ok && newstrategy
 	}
